@@ -70,6 +70,24 @@ Theorem C13_driver_agrees :
     sched_walk ch ss init pt false t = Some lt -> pull_time ch ss init pt t = lt.
 Proof. exact sched_req_is_actual. Qed.
 
+(** Several consumers behind ONE shared adapter (or shared sub-chain) without per-request state - pass-through,
+    DelayFixed, DelayToPush - do not influence each other: a pull through  sub ++ trunk  asks the source for the trunk's
+    shift of what the consumer's own sub-chain hands down, and leaves the trunk's state untouched (the state of the own
+    sub-chain changes as it does without the trunk).  This is the model of the tree cases of the correspondence check. *)
+Theorem C13_shared_trunk :
+  forall sub trunk ss1 ss2 init pt t,
+    no_buf sub = true -> length ss1 = length sub -> no_req_state trunk = true ->
+    pull_time (sub ++ trunk) (ss1 ++ ss2) init pt t = pull_time trunk ss2 init pt (pull_time sub ss1 init pt t) /\
+    snd (pull_chain (sub ++ trunk) (ss1 ++ ss2) init pt t) = snd (pull_chain sub ss1 init pt t) ++ ss2.
+Proof. exact shared_trunk. Qed.
+
+Example C13_shared_trunk_nonvacuous :
+  (* a fast and a slow consumer behind one DelayToPush: the slow one is still answered for ITS time *)
+  c13_tree_check
+    [([APass; AToPush], 0, [LPush 0; LPush 10; LPull 10; LPull 3]); ([AFixed 2; AToPush], 0, [LPush 0; LPush 10; LPull 3])]
+    [[None; None; Some (10, Ok 1%nat); Some (3, Ok 0%nat)]; [None; None; Some (1, Ok 0%nat)]] = true.
+Proof. vm_compute. reflexivity. Qed.
+
 Example C13_nonvacuous :
   c13_model ([AToPull 2 1; APass; AFixed 2], 0,
              [LPush 0; LPush 10; LPull 4; LPush 20; LPull 9; LPull 15; LPull 20; LPull 40])
@@ -85,3 +103,4 @@ Print Assumptions C13_to_pull_meaning.
 Print Assumptions C13_to_push.
 Print Assumptions C13_delays_add_up.
 Print Assumptions C13_driver_agrees.
+Print Assumptions C13_shared_trunk.
